@@ -187,6 +187,10 @@ def to_stmts(n) -> List[dict]:
         return [{"k": "continue"}]
     if k == "NullStmt":
         return []
+    if k == "SwitchStmt":
+        sw = _desugar_switch(n)
+        if sw is not None:
+            return sw
     if k in ("CXXTryStmt",):
         out = []
         for c in inner:
@@ -201,6 +205,76 @@ def to_stmts(n) -> List[dict]:
 class CalleeName(str):
     """the callee's name; .sig carries the type of the declaration overload resolution selected (None if unresolved)"""
     sig = None
+
+
+def _desugar_switch(n):
+    """a structured switch (side-effect-free selector, every section closed by `break`/`return` or last, no other `break` that
+    targets the switch) as the equivalent if / else-if chain; None when the switch is not of that form"""
+    inner = [x for x in (n.get("inner", []) or []) if x.get("kind")]
+    if len(inner) < 2 or inner[-1].get("kind") != "CompoundStmt":
+        return None
+    cond = to_expr(inner[0])
+    if any(s_[0] in ("call", "mcall", "assign", "pre", "post", "other", "new", "delete") for s_ in sub_exprs(cond)):
+        return None
+    sections, cur = [], None          # [(labels | None for default, [stmt nodes])]
+    def open_label(node):
+        nonlocal cur
+        while node.get("kind") in ("CaseStmt", "DefaultStmt"):
+            kids = [x for x in (node.get("inner", []) or []) if x.get("kind")]
+            if node["kind"] == "CaseStmt":
+                lab, sub = to_expr(kids[0]), (kids[1] if len(kids) > 1 else None)
+            else:
+                lab, sub = None, (kids[0] if kids else None)
+            if cur is None or cur[1]:
+                cur = ([], [])
+                sections.append(cur)
+            cur[0].append(lab)
+            if sub is None:
+                return
+            node = sub
+        cur[1].append(node)
+    for child in inner[-1].get("inner", []) or []:
+        if child.get("kind") in ("CaseStmt", "DefaultStmt"):
+            open_label(child)
+        elif cur is None:
+            return None
+        else:
+            cur[1].append(child)
+
+    def targets_switch_break(stmts):
+        for st in stmts:
+            if st["k"] == "break":
+                return True
+            if st["k"] == "if" and (targets_switch_break(st["then"]) or targets_switch_break(st["else"] or [])):
+                return True
+            if st["k"] == "block" and targets_switch_break(st["body"]):
+                return True
+        return False
+
+    chain = []
+    for i_, (labels, nodes) in enumerate(sections):
+        body = []
+        for nd in nodes:
+            body.extend(to_stmts(nd))
+        closed = bool(body) and body[-1]["k"] in ("break", "return")
+        if body and body[-1]["k"] == "break":
+            body = body[:-1]
+        if not closed and i_ != len(sections) - 1:
+            return None                 # falls through into the next section
+        if targets_switch_break(body):
+            return None
+        chain.append((labels, body))
+    default = next((b for l, b in chain if None in l), None)
+    if any(None in l and len(l) > 1 for l, _b in chain):
+        return None
+    out = default if default is not None else []
+    for labels, body in reversed([c for c in chain if None not in c[0]]):
+        test = None
+        for lab in labels:
+            t_ = ("bin", "==", cond, lab)
+            test = t_ if test is None else ("bin", "||", test, t_)
+        out = [{"k": "if", "cond": test, "then": body, "else": out or None}]
+    return out
 
 
 def _name_of_callee(c):
